@@ -9,19 +9,127 @@ from bpsa.terms import walk, short, TERM_IDX, T
 from . import poly
 
 
-def loop_carried_scalars(ctx, v, lp):
-    """locals of type Scalar that are (re)assigned inside loop lp and defined before it"""
+SCALAR = 'curve25519_dalek::Scalar'
+OPS = {'std::ops::Add::add': 'Add', 'std::ops::Sub::sub': 'Sub', 'std::ops::Mul::mul': 'Mul', 'std::ops::Neg::neg': 'Neg'}
+OPS_ASSIGN = {'std::ops::AddAssign::add_assign': 'Add', 'std::ops::SubAssign::sub_assign': 'Sub', 'std::ops::MulAssign::mul_assign': 'Mul'}
+
+
+def carried_scalars(ctx, v, lp):
+    """named Scalar locals defined before the loop and updated inside it (by assignment or by an in-place operator)"""
     ix = ctx.eng.bx(v)
     out = []
     for l in range(v.argc + 1, len(v.locals)):
-        if v.local_ty(l) != 'curve25519_dalek::Scalar' or not v.local_name(l):
+        if v.local_ty(l) != SCALAR or not v.local_name(l):
             continue
         wd = ix.whole_defs(l)
         ins = [d for d in wd if d[0] in lp.blocks]
         outs = [d for d in wd if d[0] not in lp.blocks]
-        if ins and outs:
-            out.append((l, ins, outs))
+        evs = [e for e in ix.events_on(('L', l)) if e['bb'] in lp.blocks and e['decl'] in OPS_ASSIGN]
+        if outs and (ins or evs):
+            out.append(l)
     return out
+
+
+def step_polys(ctx, v, lp, carried):
+    """one abstract iteration of the loop in the polynomial domain: {carried local: polynomial over X<l> and loop-invariant
+    atoms}, or None if the body is not straight-line ring arithmetic on the carried variables.  Nothing is unrolled."""
+    cfg = ctx.cfgof(v)
+    eng = ctx.eng
+    blocks = [b for b in cfg.rpo if b in lp.blocks]
+    # straight-line body: every block of the loop executes on every iteration (no inner branching besides the driver)
+    inner = [b for b in blocks if v.block[b]['term']['k'] == 'switch' and b != getattr(lp, 'driver_switch', None)]
+    if inner:
+        return None, 'the loop body branches'
+    env = {}
+    refs = {}
+    atoms = {}
+
+    def atom_of(term):
+        atoms[term.id] = term
+        return {('#%d' % term.id,): 1}
+
+    def read(l, bb, idx):
+        if l in refs:
+            return read(refs[l], bb, idx)
+        if l in env:
+            return env[l]
+        if l in carried:
+            return {('X%d' % l,): 1}
+        return atom_of(eng.local(v, bb, idx, l))
+
+    def operand(o, bb, idx):
+        if o['k'] in ('copy', 'move'):
+            p = o['place']
+            if any(e['k'] not in ('deref',) for e in p['p']):
+                return atom_of(eng.operand(v, bb, idx, o))
+            return read(p['l'], bb, idx)
+        t = eng.operand(v, bb, idx, o)
+        if t.tag == 'scalar':
+            return {(): t[1]} if t[1] else {}
+        return atom_of(t)
+
+    for bb in blocks:
+        blk = v.block[bb]
+        for i, st in enumerate(blk['stmts']):
+            if st['k'] != 'assign' or st['place']['p']:
+                continue
+            dst = st['place']['l']
+            rv = st['rv']
+            ty = v.local_ty(dst)
+            if rv['k'] in ('ref', 'copyforderef') and not any(e['k'] not in ('deref',) for e in rv['place']['p']):
+                src = rv['place']['l']
+                refs[dst] = refs.get(src, src)
+            elif rv['k'] == 'use' and ty.replace('&', '').replace('mut ', '').replace("'a ", '').replace("'b ", '').strip() == SCALAR and rv['op']['k'] in ('copy', 'move'):
+                if ty == SCALAR:
+                    env[dst] = operand(rv['op'], bb, i)
+                    refs.pop(dst, None)
+                else:
+                    src = rv['op']['place']['l']
+                    refs[dst] = refs.get(src, src)
+            elif rv['k'] == 'use' and ty == SCALAR:
+                env[dst] = operand(rv['op'], bb, i)
+        t = blk['term']
+        if t['k'] != 'call':
+            continue
+        decl = callee_decl(t)
+        name = callee_name(t)
+        if decl in OPS and 'Scalar' in name:
+            ps = [operand(a, bb, TERM_IDX) for a in t['args']]
+            op = OPS[decl]
+            if op == 'Neg':
+                r = poly.padd({}, ps[0], -1)
+            elif op == 'Mul':
+                r = poly.pmul(ps[0], ps[1])
+            else:
+                r = poly.padd(ps[0], ps[1], 1 if op == 'Add' else -1)
+            if not t['dest']['p']:
+                env[t['dest']['l']] = r
+                refs.pop(t['dest']['l'], None)
+        elif decl in OPS_ASSIGN and 'Scalar' in name:
+            a0 = t['args'][0]
+            if a0['k'] not in ('copy', 'move'):
+                return None, 'in-place update of a non-local'
+            tgt = refs.get(a0['place']['l'], a0['place']['l'])
+            cur = read(tgt, bb, TERM_IDX)
+            val = operand(t['args'][1], bb, TERM_IDX)
+            op = OPS_ASSIGN[decl]
+            env[tgt] = poly.pmul(cur, val) if op == 'Mul' else poly.padd(cur, val, 1 if op == 'Add' else -1)
+        elif not t['dest']['p'] and v.local_ty(t['dest']['l']) == SCALAR:
+            env[t['dest']['l']] = atom_of(eng.call_result(v, bb))
+    out = {}
+    for l in carried:
+        out[l] = env.get(l, {('X%d' % l,): 1})
+    # atoms must be loop-invariant
+    for l, pl in out.items():
+        for m in pl:
+            for a in m:
+                if a.startswith('#'):
+                    at = atoms.get(int(a[1:]))
+                    inv = at is not None and not any((y.tag in ('call', 'ev') and y[-1] and y[-1][0][0] == v.key and y[-1][0][1] in lp.blocks) or
+                                                     (y.tag == 'lv' and y[3] == lp.header) for y in walk(at))
+                    if not inv:
+                        return None, 'an update uses a value computed inside the loop by something other than ring arithmetic'
+    return out, atoms
 
 
 def find_doubling_loop(ctx, v):
@@ -39,6 +147,15 @@ def find_doubling_loop(ctx, v):
     return None
 
 
+def init_term(ctx, v, lp, l):
+    """value of local l on entry to the loop"""
+    cfg = ctx.cfgof(v)
+    preds = [p for p in cfg.pred.get(lp.header, []) if p not in lp.blocks]
+    if len(preds) != 1:
+        return None
+    return ctx.eng.local(v, preds[0], TERM_IDX, l)
+
+
 def check_aggregation_sum(ctx, rule, v):
     rep = ctx.rep
     lp = find_doubling_loop(ctx, v)
@@ -46,45 +163,17 @@ def check_aggregation_sum(ctx, rule, v):
     if lp is None:
         rep.idiom_absent(rule, key, 'no loop with trip count ilog2(aggregation factor): the closed-form aggregation sum is computed differently (not decided)')
         return
-    carried = loop_carried_scalars(ctx, v, lp)
+    carried = carried_scalars(ctx, v, lp)
     if len(carried) != 2:
         rep.idiom_absent(rule, key, 'the ilog2(aggregation) loop carries %d scalar variables, not 2 (not decided)' % len(carried))
         return
-    eng = ctx.eng
-    # step terms with loop-carried reads as lv atoms
-    steps, inits, lvs = {}, {}, {}
-    for l, ins, outs in carried:
-        if len(ins) != 1 or len(outs) != 1:
-            rep.idiom_absent(rule, key, 'a carried variable has several definitions (not decided)')
-            return
-        d = ins[0]
-        steps[l] = eng.rvalue(v, d[0], d[1], d[3]['rv']) if d[2] == 'assign' else eng.call_result(v, d[0])
-        o = outs[0]
-        inits[l] = eng.rvalue(v, o[0], o[1], o[3]['rv']) if o[2] == 'assign' else eng.call_result(v, o[0])
-        lvs[l] = T('lv', v.key, l, lp.header, ())
-    atoms = {lvs[l].id: 'X%d' % i for i, l in enumerate(sorted(lvs))}
-    names = {l: 'X%d' % i for i, l in enumerate(sorted(lvs))}
-    polys = {}
-    for l in steps:
-        try:
-            polys[l] = poly.normal(steps[l], atoms)
-        except poly.NotPoly:
-            rep.idiom_absent(rule, key, 'an update does not normalise to a polynomial (not decided)')
-            return
-        # complete normalisation: besides the carried variables only loop-invariant atoms may occur
-        from bpsa.terms import Term
-        byid = {x.id: x for x in walk(steps[l])}
-        for m in polys[l]:
-            for a in m:
-                if a.startswith('#'):
-                    at = byid.get(int(a[1:]))
-                    inv = at is not None and not any((y.tag in ('call', 'ev', 'lv') and y[-1] and y[-1][0][0] == v.key and y[-1][0][1] in lp.blocks) or
-                                                     (y.tag == 'lv' and y[3] == lp.header) for y in walk(at))
-                    if not inv:
-                        rep.idiom_absent(rule, key, 'an update involves a term computed inside the loop that is not a ring operation on the carried variables: %s (not decided)' % short(steps[l], 120))
-                        return
-    # reference: S' = S + S*T, T' = T*T  for some assignment of (S, T)
-    (la, lb) = sorted(steps)
+    polys, info = step_polys(ctx, v, lp, carried)
+    if polys is None:
+        rep.idiom_absent(rule, key, '%s (not decided)' % info)
+        return
+    names = {l: 'X%d' % l for l in carried}
+    la, lb = sorted(carried)
+
     def ref(S, T_):
         return {S: {(names[S],): 1, tuple(sorted((names[S], names[T_]))): 1}, T_: {(names[T_], names[T_]): 1}}
     ok = None
@@ -94,16 +183,21 @@ def check_aggregation_sum(ctx, rule, v):
             ok = (S, T_)
     where = ctx.where(v, lp.header)
     if ok is None:
-        rep.violation(rule, key, 'closed-form aggregation sum: loop updates are %s; the reference recurrence is S <- S + S*T, T <- T*T (sum of z^(2j), j = 1..m); '
-                      'any other update agrees with it only for small aggregation factors' % {v.local_name(l): fmt_poly(polys[l]) for l in polys}, where)
+        shown = {v.local_name(l): fmt_poly(polys[l]).replace(names[la], v.local_name(la)).replace(names[lb], v.local_name(lb)) for l in polys}
+        rep.violation(rule, key, 'closed-form aggregation sum: one loop iteration computes %s; the reference recurrence is S <- S + S*T, T <- T*T (sum of z^(2j), j = 1..m); '
+                      'any other update agrees with it only for small aggregation factors' % shown, where)
         return
     S, T_ = ok
-    # initial values equal (both z^2) and z is the second y/z challenge
-    same_init = inits[S] is inits[T_] or canon(inits[S]) == canon(inits[T_])
-    isq = inits[S]
-    sq = isq.tag == 'binop' and isq[1] == 'Mul' and isq[2] is isq[3]
+    i_s, i_t = init_term(ctx, v, lp, S), init_term(ctx, v, lp, T_)
+    def unm(t):
+        while t is not None and t.tag == 'mut':
+            t = t[1]
+        return t
+    i_s, i_t = unm(i_s), unm(i_t)
+    same_init = i_s is not None and i_t is not None and (i_s is i_t or canon(i_s) == canon(i_t))
+    sq = i_s is not None and i_s.tag == 'binop' and i_s[1] == 'Mul' and i_s[2] is i_s[3]
     rep.check(same_init and sq, rule, key, 'aggregation sum uses the doubling recurrence S <- S + S*T, T <- T*T from S0 = T0 = z*z (trip count ilog2(m))',
-              'doubling recurrence starts from S0 = %s, T0 = %s (expected both z*z)' % (short(inits[S], 80), short(inits[T_], 80)), where)
+              'doubling recurrence starts from S0 = %s, T0 = %s (expected both z*z)' % (short(i_s, 80) if i_s is not None else None, short(i_t, 80) if i_t is not None else None), where)
     # post-loop: S is multiplied by (2^bits - 1)
     ix = ctx.eng.bx(v)
     evs = [e for e in ix.events_on(('L', S)) if e['bb'] not in lp.blocks]
@@ -111,7 +205,7 @@ def check_aggregation_sum(ctx, rule, v):
     if len(evs) == 1 and evs[0]['decl'].endswith('mul_assign'):
         val = ctx.eng.operand(v, evs[0]['bb'], TERM_IDX, evs[0]['args'][0])
         c = canon(val)
-        good = c.startswith('(S1 Sub pow_vartime(from(2),') is False and 'pow_vartime(from(2),' in c and c.endswith(' Sub S1)') and 'gens_capacity' in c
+        good = 'pow_vartime(from(2),' in c and c.endswith(' Sub S1)') and 'gens_capacity' in c
         rep.check(good, rule, k2, 'the sum is scaled by 2^bits - 1', 'the sum is scaled by %s, expected pow(2, bit_length) - 1' % c, ctx.where(v, evs[0]['bb']))
     else:
         rep.idiom_absent(rule, k2, 'the aggregation sum is not scaled by a single in-place multiplication after the loop (not decided)')
